@@ -1,0 +1,22 @@
+//go:build verif
+
+package fasthttp
+
+// Thin exports for the /verif correspondence harness (property C38).
+
+// VerifPipelineQueueCaps reports cap(chW), cap(chR) of the first connection client
+// (-1, -1 when no request has been issued yet).
+func VerifPipelineQueueCaps(c *PipelineClient) (int, int) {
+	c.connClientsLock.Lock()
+	defer c.connClientsLock.Unlock()
+	if len(c.connClients) == 0 {
+		return -1, -1
+	}
+	cc := c.connClients[0]
+	cc.chLock.Lock()
+	defer cc.chLock.Unlock()
+	if cc.chs == nil {
+		return -1, -1
+	}
+	return cap(cc.chs.chW), cap(cc.chs.chR)
+}
